@@ -14,6 +14,13 @@ for d in sorted(glob.glob('/verif/seeded/*-*')):
     m['ran'] = ['./check %s quick against a scratch worktree of /repo HEAD with the patch applied (tools/seedmatrixpar / tools/seedpar)' % c for c in caught + missed]
     json.dump(m, open(d + '/meta.json', 'w'), indent=1)
     verdict = ', '.join(caught) or '**missed**'
+    if m.get('kind') == 'benign':
+        silent = [re.search(r'check=(\S+)', l).group(1) for l in res if ' SILENT' in l]
+        alarm = [l for l in res if ' ALARM' in l or ' CAUGHT' in l]
+        m['confirmed'] = 'suite passes with the change; the property holds with it (the author\'s demonstration passes with and without the change)'
+        m['ran'] = ['./check %s quick against a scratch worktree of /repo HEAD with the patch applied (tools/benignpar)' % c for c in silent]
+        json.dump(m, open(d + '/meta.json', 'w'), indent=1)
+        verdict = '**FALSE ALARM**' if alarm else ('benign: ' + ', '.join(silent) + ' silent (as it must be)' if silent else 'benign: not run')
     if m.get('status') == 'neutralised':
         verdict = 'neutralised by a later fix (not counted)'
     if m.get('status') == 'disputed':
